@@ -607,7 +607,7 @@ fn main() {
         cases.push("H imp 21 7;imp 22 8".into());
         cases.push("H imp 21 7".into());
         cases.push("H imp 23 9;imp 22 8".into());
-        let (n_shape, n_rand, maxlen) = if tier == "thorough" { (450, 650, 60) } else { (40, 80, 30) };
+        let (n_shape, n_rand, maxlen) = if tier == "thorough" { (1500, 2500, 60) } else { (40, 80, 30) };
         for _ in 0..n_shape { cases.push(show(&gen_base_after_dependants(&mut r))); }
         for _ in 0..n_shape { cases.push(show(&gen_same_rank(&mut r))); }
         for _ in 0..n_shape { cases.push(show(&gen_overlapping(&mut r))); }
